@@ -10,6 +10,10 @@ Sections
   eval        the same through HistogramRegistration (clamp, -1 padding, masks, voxel grid, _eval / eval).
   l1          L1_moments vs model (exact) and vs the definition (weighted median, mean absolute deviation).
   measures    cc / cr / crl1 (rational formulas, model and Fraction reference), mi / nmi / slr (float reference).
+  fov         sequences of set_fov / subsample on one object (explicit and automatic spacing): block, affine, npoints
+              consistent; self-registration through eval(T) equals the definition; ideal_spacing / slices vs Coq model.
+  reuse       every measure (incl. pmi, dpmi, slr) evaluated repeatedly, several measure / registration objects built
+              from the same caller arrays: results independent of history, caller arrays unmodified, slr = textbook.
   helpers     clamp, smallest_bounding_box, subgrid_affine / _slicer.
   optimize    optimisation result not worse than the start on tiny problems.
   rand-fault  (subprocess) regression: _rand_interpolation when no neighbour has positive weight adds nothing.
@@ -910,6 +914,314 @@ def helpers(ck):
     ck.section("helpers", done=True)
 
 
+# ------------------------------------------------------------------ field of view / subsampling sequences
+def ideal_spacing_def(block, npoints):
+    """ideal_spacing as documented in its body: while the block has more than npoints non-negative voxels,
+    coarsen the axis with the most samples (ties: first axis wins over later ones as coded)."""
+    dims = block.shape
+    sp = [1, 1, 1]
+    for _ in range(1000):
+        if int((block[::sp[0], ::sp[1], ::sp[2]] >= 0).sum()) <= npoints:
+            return sp
+        dd = [F(dims[k], sp[k]) for k in range(3)]
+        if dd[0] >= dd[1] and dd[0] >= dd[2]:
+            d = 0
+        elif dd[1] > dd[0] and dd[1] >= dd[2]:
+            d = 1
+        else:
+            d = 2
+        sp[d] += 1
+    raise RuntimeError("ideal_spacing_def does not terminate")
+
+
+def fov(ck):
+    """Sequences of set_fov / subsample calls on ONE registration object (explicit spacing, corner/size, automatic
+    spacing from npoints, from_mask bounding box).  After every call: the block `_from_data`, the affine
+    `_from_affine`, `_from_npoints` and `_vox_coords` must describe the SAME sub-grid (voxel v of the block is image
+    voxel corner + spacing*v), the automatic spacing must respect npoints, and registering the image to itself
+    under the identity (and under voxel-lattice translations) must give the histogram of the definition."""
+    import nipy.algorithms.registration.histogram_registration as hr
+    from nipy.algorithms.registration.affine import Affine
+    from nipy.core.api import Image, vox2mni
+    from nipy.core.image.image_spaces import xyz_affine
+    hr.VERBOSE = False
+    rng = ck.rng("fov")
+    terms, meta = [], []
+    AFFS = [np.eye(4), np.diag([2.0, 1.0, 0.5, 1.0]), np.diag([2.0, 3.0, 1.5, 1.0])]
+    for n in range(ck.n(40, 300)):
+        shape = tuple(int(v) for v in rng.integers(3, 8, size=3))
+        bins = int(rng.integers(2, 7))
+        dat = rng.integers(0, bins, size=shape).astype([np.int16, float, np.uint8][n % 3])
+        dat.flat[0], dat.flat[-1] = 0, bins - 1
+        aff = AFFS[n % 3].copy()
+        aff[:3, 3] = rng.integers(-8, 9, size=3)
+        img = Image(dat, vox2mni(aff))
+        fmask = None
+        if n % 4 == 3:
+            fmask = rng.random(shape) < 0.5
+            fmask.flat[0] = fmask.flat[-1] = True
+        try:
+            R = hr.HistogramRegistration(img, img, from_bins=bins, from_mask=fmask, similarity="cc", interp="pv")
+        except Exception as e:  # noqa
+            ck.fail("fov/constructor-raises", "HistogramRegistration raised %s: %s" % (type(e).__name__, e), {"data": dat.tolist()})
+            continue
+        clamped = np.asarray(R._from_img.get_fdata()).astype(int)
+        img_aff = np.asarray(xyz_affine(R._from_img))
+        nvox = int(np.prod(shape))
+        for step in range(4):
+            kind = ["constructed", "subsample-npoints", "set_fov-corner-size-npoints", "subsample-spacing",
+                    "set_fov-corner-size-spacing", "set_fov-npoints"][(0 if step == 0 else 1 + int(rng.integers(5)))]
+            corner, size, spacing, npoints = (0, 0, 0), shape, None, None
+            call = "constructor"
+            if kind == "subsample-npoints":
+                npoints = int(rng.integers(1, nvox + 3))
+                call = "R.subsample(npoints=%d)" % npoints
+                R.subsample(npoints=npoints)
+            elif kind == "subsample-spacing":
+                spacing = [int(v) for v in rng.integers(1, 4, size=3)]
+                call = "R.subsample(spacing=%s)" % spacing
+                R.subsample(spacing=spacing)
+            elif kind.startswith("set_fov-corner-size"):
+                corner = tuple(int(rng.integers(0, shape[k] - 1)) for k in range(3))
+                size = tuple(int(rng.integers(1, shape[k] - corner[k] + 1)) for k in range(3))
+                if kind.endswith("npoints"):
+                    npoints = int(rng.integers(1, int(np.prod(size)) + 2))
+                    call = "R.set_fov(corner=%s, size=%s, npoints=%d)" % (corner, size, npoints)
+                    R.set_fov(corner=corner, size=size, npoints=npoints)
+                else:
+                    spacing = [int(v) for v in rng.integers(1, 4, size=3)]
+                    call = "R.set_fov(spacing=%s, corner=%s, size=%s)" % (spacing, corner, size)
+                    R.set_fov(spacing=spacing, corner=corner, size=size)
+            elif kind == "set_fov-npoints":
+                npoints = int(rng.integers(1, nvox + 3))
+                call = "R.set_fov(npoints=%d)" % npoints
+                R.set_fov(npoints=npoints)
+            else:
+                if fmask is not None:
+                    w = np.where(fmask)
+                    corner = tuple(int(a.min()) for a in w)
+                    size = tuple(int(a.max()) + 1 - int(a.min()) for a in w)
+                npoints = hr.NPOINTS
+            replay = {"data": dat.tolist(), "dtype": str(dat.dtype), "affine": aff.tolist(), "from_bins": bins,
+                      "from_mask": None if fmask is None else fmask.astype(int).tolist(), "step": step, "call": call,
+                      "sequence": "HistogramRegistration(img, img, from_bins, from_mask) then %d fov calls, last: %s" % (step, call)}
+            auto = spacing is None
+            ck.count(("fov", n, step, kind), nontrivial=True, bucket="fov:%s:%s" % (kind, "auto-spacing" if auto else "explicit"))
+            fd = np.asarray(R._from_data)
+            # 1. the sub-grid described by _from_affine
+            M = np.linalg.solve(img_aff, np.asarray(R._from_affine))
+            sp_obs = np.diag(M)[:3]
+            off_obs = M[:3, 3]
+            if (not np.allclose(M, np.diag(np.diag(M)) + np.pad(M[:3, 3:4], ((0, 1), (3, 0))), atol=1e-9)
+                    or not np.allclose(sp_obs, np.round(sp_obs), atol=1e-9) or (np.round(sp_obs) < 1).any()
+                    or not np.allclose(off_obs, np.round(off_obs), atol=1e-9) or abs(M[3, 3] - 1) > 1e-9):
+                ck.fail("fov/affine-not-a-subgrid", "after %s: inv(image affine) @ _from_affine = %s is not an integer start/step sub-grid" % (call, M.tolist()), replay)
+                continue
+            sp_obs = [int(v) for v in np.round(sp_obs)]
+            off_obs = [int(v) for v in np.round(off_obs)]
+            block1 = clamped[corner[0]:corner[0] + size[0], corner[1]:corner[1] + size[1], corner[2]:corner[2] + size[2]]
+            sp_exp = list(spacing) if spacing is not None else ideal_spacing_def(block1, npoints)
+            exp = clamped[corner[0]:corner[0] + size[0]:sp_exp[0], corner[1]:corner[1] + size[1]:sp_exp[1],
+                          corner[2]:corner[2] + size[2]:sp_exp[2]]
+            replay.update(expected_spacing=sp_exp, affine_spacing=sp_obs, affine_offset=off_obs, block_shape=list(fd.shape))
+            # 2. data and affine must describe the same sub-grid: voxel v of the block is image voxel offset + spacing*v
+            idx = np.indices(fd.shape).reshape(3, -1)
+            src = [off_obs[k] + sp_obs[k] * idx[k] for k in range(3)]
+            inb = all((src[k] >= 0).all() and (src[k] < shape[k]).all() for k in range(3))
+            if not inb or not np.array_equal(fd.astype(int).ravel(), clamped[src[0], src[1], src[2]]):
+                ck.fail("fov/data-and-affine-disagree/%s" % ("auto-spacing" if auto else "explicit-spacing"),
+                        "after %s: _from_data (shape %s) is not the image sampled at offset %s + spacing %s * v as _from_affine says "
+                        "(the data were sliced with spacing %s)" % (call, fd.shape, off_obs, sp_obs, sp_exp), replay)
+                continue
+            if list(off_obs) != list(corner) or fd.shape != exp.shape or not np.array_equal(fd.astype(int), exp):
+                ck.fail("fov/block/%s" % ("auto-spacing" if auto else "explicit-spacing"),
+                        "after %s: block offset %s / shape %s differ from corner %s and slice(corner, corner+size, %s) -> shape %s"
+                        % (call, off_obs, fd.shape, corner, sp_exp, exp.shape), replay)
+                continue
+            if int(R._from_npoints) != int((fd >= 0).sum()):
+                ck.fail("fov/npoints", "after %s: _from_npoints %s != number of non-negative voxels %d" % (call, R._from_npoints, (fd >= 0).sum()), replay)
+            if auto and int((fd >= 0).sum()) > npoints:
+                ck.fail("fov/auto-spacing-exceeds-npoints", "after %s: %d non-negative voxels in the block, npoints=%d" % (call, (fd >= 0).sum(), npoints), replay)
+            if np.asarray(R._vox_coords).shape != fd.shape + (3,):
+                ck.fail("fov/vox-coords-shape", "after %s: _vox_coords shape %s, block %s" % (call, np.asarray(R._vox_coords).shape, fd.shape), replay)
+            # 3. self registration through eval(T): identity, then a translation by whole/quarter voxels
+            Iflat = [int(v) for v in fd.flat]
+            Jp = np.asarray(R._to_data).astype(np.int16)
+            for tk in range(2):
+                tv = [F(0)] * 3 if tk == 0 else [F(int(v), 4) for v in rng.integers(-6, 7, size=3)]
+                T = Affine()
+                T.translation = [float(tv[k]) * aff[k, k] for k in range(3)]
+                for mode in (("pv", "tri") if tk == 0 else ("pv",)):
+                    R.interp = mode
+                    try:
+                        R.eval(T)
+                    except Exception as e:  # noqa
+                        ck.fail("fov/eval-raises", "after %s: eval raised %s: %s" % (call, type(e).__name__, e), replay)
+                        continue
+                    H = np.array(R._joint_hist)
+                    A = [[F(sp_exp[r]) if r == c else F(0) for c in range(3)] for r in range(3)]
+                    coords = coords_of(fd.shape, A, [F(corner[k]) + tv[k] for k in range(3)]).reshape(-1, 3)
+                    Hdef, info = ref_hist(Iflat, Jp, coords, mode, H.shape[0], H.shape[1])
+                    Hd = np.array([float(v) for v in Hdef]).reshape(H.shape)
+                    if np.abs(H - Hd).max() > 1e-6:
+                        k = int(np.argmax(np.abs(H - Hd)))
+                        ck.fail("fov/eval-differs-from-definition/%s" % ("identity" if tk == 0 else "translation"),
+                                "after %s, interp=%s, voxel translation %s: bin %s is %r, the documented mapping (block voxel v <-> image voxel "
+                                "corner + spacing*v) gives %r" % (call, mode, [str(v) for v in tv], divmod(k, H.shape[1]), H.ravel()[k], Hd.ravel()[k]),
+                                dict(replay, interp=mode, translation_vox=[str(v) for v in tv], H=H.tolist()))
+                    if tk == 0:
+                        nn = sum(1 for v in Iflat if v >= 0)
+                        offd = float(H.sum() - np.trace(H))
+                        if offd > 1e-6 or abs(float(np.trace(H)) - nn) > 1e-6:
+                            ck.fail("fov/identity-not-diagonal/%s" % ("auto-spacing" if auto else "explicit-spacing"),
+                                    "after %s, interp=%s: self registration under the identity has off-diagonal mass %g, trace %g, %d voxels"
+                                    % (call, mode, offd, np.trace(H), nn), dict(replay, interp=mode, H=H.tolist()))
+            R.interp = "pv"
+        # model correspondence: ideal_spacing on this image's clamped data
+        npq = int(rng.integers(1, nvox + 2))
+        try:
+            spi = [int(v) for v in hr.ideal_spacing(clamped.astype(float), npq)]
+        except Exception as e:  # noqa
+            ck.fail("ideal_spacing/raises", "ideal_spacing raised %s" % e, {"data": clamped.tolist(), "npoints": npq})
+            continue
+        spd = ideal_spacing_def(clamped, npq)
+        if spi != spd:
+            ck.fail("ideal_spacing/differs-from-definition", "ideal_spacing %s, definition %s" % (spi, spd), {"data": clamped.tolist(), "npoints": npq})
+        terms.append("(match ideal_spacing_loop 300 %s %s %s %s %s 1 1 1 with Some (a, b, c) => Z.eqb a %s && Z.eqb b %s && Z.eqb c %s | None => false end)" % (
+            czl(clamped.ravel().tolist()), cz(shape[0]), cz(shape[1]), cz(shape[2]), cz(npq), cz(spi[0]), cz(spi[1]), cz(spi[2])))
+        meta.append(("ideal_spacing", {"data": clamped.tolist(), "npoints": npq, "impl": spi}))
+        # model correspondence: the slices
+        st, sz, stp = int(rng.integers(0, shape[0])), int(rng.integers(1, 9)), int(rng.integers(1, 4))
+        got = list(range(shape[0]))[slice(st, st + sz, stp)]
+        terms.append("zlist_eqb (fov_axis %s %s %s %s) %s" % (cz(shape[0]), cz(st), cz(sz), cz(stp), czl(got)))
+        meta.append(("fov_axis", {"n": shape[0], "corner": st, "size": sz, "spacing": stp, "python": got}))
+        if n == 1:
+            ck.sample({"section": "fov", "shape": list(shape), "last_call": call, "block_shape": list(fd.shape), "spacing": sp_exp})
+    if ck.build is not None and ck.build.ok:
+        res = ck.coq_bools(HDRPY, terms, shard=40, name="fov")
+        ck.cov["traces_validated_against_impl"] += len(res)
+        for ok, (what, replay) in zip(res, meta):
+            if not ok:
+                ck.fail("%s/model-vs-impl" % what, "Coq model of %s and implementation disagree on %s" % (what, replay), replay)
+                break
+    ck.section("fov", objects=ck.n(40, 300), calls_per_object=4)
+
+
+# ------------------------------------------------------------------ object reuse, caller data, slr
+ALL_SIMS = ["cc", "cr", "crl1", "mi", "nmi", "pmi", "dpmi", "slr"]
+
+
+def slr_def(H, q):
+    """supervised log-likelihood ratio: sum H log(q / (q_row q_col)) / sum H"""
+    q = np.asarray(q, dtype=float)
+    qr = q.sum(1, keepdims=True)
+    qc = q.sum(0, keepdims=True)
+    return float(np.sum(H * np.log(q / (qr * qc))) / H.sum())
+
+
+def reuse(ck):
+    """Multi-step use: every measure evaluated repeatedly, several measure / registration objects built from the
+    SAME caller arrays (dist model, image data, masks).  Results must not depend on what was evaluated before,
+    caller arrays must not be modified, and `slr` must equal its textbook value on every use."""
+    import nipy.algorithms.registration.histogram_registration as hr
+    from nipy.algorithms.registration import similarity_measures as sm
+    from nipy.algorithms.registration.affine import Affine
+    from nipy.core.api import Image, vox2mni
+    hr.VERBOSE = False
+    rng = ck.rng("reuse")
+    for n in range(ck.n(60, 600)):
+        shape = (int(rng.integers(2, 7)), int(rng.integers(2, 7)))
+        H = rng.integers(0, 9, size=shape).astype(float)
+        if H.sum() == 0:
+            H[0, 0] = 1
+        q = rng.random(shape) + 0.05
+        q /= q.sum()
+        q0, H0 = q.copy(), H.copy()
+        renorm = bool(n % 2) 
+        for name in ALL_SIMS:
+            replay = {"measure": name, "renormalize": renorm, "H": H0.tolist(), "dist": q0.tolist() if name == "slr" else None}
+            ck.count(("reuse", n, name), nontrivial=True, bucket="reuse:measure:%s" % name)
+            try:
+                m1 = sm.similarity_measures[name](shape, renorm, q if name == "slr" else None)
+                v1 = float(m1(H))
+                v1b = float(m1(H))
+                v1s = float(m1(H.copy()))
+                m2 = sm.similarity_measures[name](shape, renorm, q if name == "slr" else None)
+                v2 = float(m2(H))
+            except Exception as e:  # noqa
+                ck.fail("reuse/raises/%s" % name, "%s raised %s: %s" % (name, type(e).__name__, e), replay)
+                continue
+            replay.update(first=v1, same_object_again=v1b, second_object=v2)
+            if not np.array_equal(H, H0):
+                ck.fail("mutates-caller-data/histogram/%s" % name, "measure %s modified the histogram passed to it" % name, replay)
+                H = H0.copy()
+            if not np.array_equal(q, q0):
+                ck.fail("mutates-caller-data/dist/%s" % name, "measure %s modified the caller's `dist` array (max change %g)" % (name, np.abs(q - q0).max()), replay)
+                q = q0.copy()
+            tol = 1e-12 * max(1.0, abs(v1))
+            if abs(v1 - v1b) > tol or abs(v1 - v1s) > tol:
+                ck.fail("reuse/same-object-differs/%s" % name, "%s evaluated twice on the same histogram: %r then %r" % (name, v1, v1b), replay)
+            if abs(v1 - v2) > tol:
+                ck.fail("reuse/second-object-differs/%s" % name,
+                        "a second %s measure built from the same arguments returns %r, the first returned %r" % (name, v2, v1), replay)
+            if name == "slr":
+                want = slr_def(H0, q0)
+                if renorm:
+                    want *= H0.sum()
+                for which, v in (("first", v1), ("second-object", v2)):
+                    if abs(v - want) > 1e-9 * max(1.0, abs(want)):
+                        ck.fail("measures/slr/%s" % which, "slr (%s use of the model, renormalize=%s) is %r, textbook value %r" % (which, renorm, v, want), replay)
+    # registration level: two objects / resolution levels sharing the caller's arrays
+    for n in range(ck.n(12, 80)):
+        sshape = tuple(int(v) for v in rng.integers(3, 6, size=3))
+        fb, tb = int(rng.integers(2, 6)), int(rng.integers(2, 6))
+        di = rng.integers(0, fb, size=sshape).astype(np.int16)
+        dj = rng.integers(0, tb, size=sshape).astype(np.int16)
+        di.flat[0], di.flat[-1], dj.flat[0], dj.flat[-1] = 0, fb - 1, 0, tb - 1
+        q = rng.random((fb, tb)) + 0.05
+        q /= q.sum()
+        fmask = rng.random(sshape) < 0.8
+        fmask.flat[0] = fmask.flat[-1] = True
+        keep = {"from": di.copy(), "to": dj.copy(), "dist": q.copy(), "mask": fmask.copy()}
+        I = Image(di, vox2mni(np.eye(4)))
+        J = Image(dj, vox2mni(np.eye(4)))
+        T = Affine()
+        T.translation = [float(F(int(v), 4)) for v in rng.integers(-3, 4, size=3)]
+        sim = ALL_SIMS[n % len(ALL_SIMS)]
+        vals = []
+        for level, spacing in enumerate(([2, 2, 1], [1, 1, 1], [1, 1, 1])):
+            replay = {"similarity": sim, "from": keep["from"].tolist(), "to": keep["to"].tolist(), "dist": keep["dist"].tolist(),
+                      "from_mask": keep["mask"].astype(int).tolist(), "translation": list(T.translation), "level": level, "spacing": spacing,
+                      "sequence": "three HistogramRegistration objects built from the same arrays (levels 0..2), each evaluated twice"}
+            ck.count(("reuse-reg", n, level), nontrivial=True, bucket="reuse:registration:%s" % sim)
+            try:
+                R = hr.HistogramRegistration(I, J, from_bins=fb, to_bins=tb, from_mask=fmask, similarity=sim, interp="pv",
+                                             dist=q if sim == "slr" else None)
+                R.subsample(spacing=spacing)
+                s1 = float(R.eval(T))
+                s2 = float(R.eval(T))
+            except Exception as e:  # noqa
+                ck.fail("reuse/registration-raises/%s" % sim, "raised %s: %s" % (type(e).__name__, e), replay)
+                break
+            Hc = np.array(R._joint_hist)
+            vals.append(s1)
+            if abs(s1 - s2) > 1e-12 * max(1.0, abs(s1)):
+                ck.fail("reuse/eval-twice-differs/%s" % sim, "eval(T) twice on one object: %r then %r" % (s1, s2), replay)
+            for key, arr in (("from", di), ("to", dj), ("dist", q), ("mask", fmask)):
+                if not np.array_equal(arr, keep[key]):
+                    ck.fail("mutates-caller-data/%s/registration" % key, "HistogramRegistration(similarity=%s) modified the caller's `%s` array" % (sim, key), replay)
+                    arr[...] = keep[key]
+            if sim == "slr" and Hc.sum() > 0:
+                want = slr_def(Hc, keep["dist"])
+                if abs(s1 - want) > 1e-9 * max(1.0, abs(want)):
+                    ck.fail("measures/slr/registration-level-%d" % min(level, 1),
+                            "'slr' similarity of registration object #%d built from the same dist is %r, textbook value on its own histogram %r" % (level + 1, s1, want),
+                            dict(replay, H=Hc.tolist()))
+        if len(vals) == 3 and abs(vals[1] - vals[2]) > 1e-12 * max(1.0, abs(vals[1])):
+            ck.fail("reuse/identical-objects-differ/%s" % sim, "two registration objects built identically return %r and %r" % (vals[1], vals[2]), replay)
+    ck.section("reuse", measures=ALL_SIMS)
+
+
 OPTIMIZERS = ["simplex", "powell", "cg", "bfgs", "steepest"]
 OPT_SIMS = ["cc", "cr", "crl1", "mi", "nmi"]
 
@@ -1084,7 +1396,9 @@ def run(ck):
         ck.note("the compiled kernel crashed in the isolated worker: the in-process sections eval/optimize were skipped")
     else:
         evalpath(ck)
+        fov(ck)
     moments_and_measures(ck)
+    reuse(ck)
     helpers(ck)
     if not getattr(ck, "kernel_unsafe", False):
         optimize(ck)
